@@ -377,6 +377,73 @@ func seedStream(r *gen.Rand) streamSeed {
 	return streamSeed{b.Bytes(), pmtPid}
 }
 
+// seedUnits builds a stream around a sequence of payload units on the PMT PID in the shapes a receiver
+// meets after packet loss or an encoder restart: PMTs behind other sections or a pointer filler, units
+// holding only another table, units whose tail packets are missing, very short unit starts (adaptation
+// field stuffing), then whole packets dropped, repeated, swapped or with the unit-start bit flipped.
+func seedUnits(r *gen.Rand) streamSeed {
+	var pkts []ref.Pkt
+	pmtPid := 0x20 + r.Intn(8000)
+	pat := ref.PAT{TSID: 1, CurrentNext: true, Entries: []ref.PATEntry{{Program: 1, PID: pmtPid}}}
+	pkts = append(pkts, ref.PaddedPacket(0, 0, true, append([]byte{0}, pat.Section()...)))
+	cc := r.Intn(16)
+	for u := 2 + r.Intn(5); u > 0; u-- {
+		var pay []byte
+		kind := r.Intn(4)
+		pay = ref.PointerPrefix(r.PickInt([]int{0, 0, 0, 1, 7, 100, 180, 183}))
+		for k := r.Intn(3); k > 0 && kind != 3; k-- {
+			pay = append(pay, ref.OtherSection(r.PickByte([]byte{0x00, 0x03, 0x42, 0xc0, 0xc8, 0xfc}), r.Bytes(r.PickInt([]int{0, 5, 40, 100, 200, r.Intn(300)})))...)
+		}
+		switch kind {
+		case 0, 3:
+			pm := ref.GenPMT(r, -1)
+			pay = append(pay, pm.Section()...)
+		case 1:
+			pm := ref.GenPMT(r, 30+r.Intn(20))
+			pay = append(pay, pm.Section()...)
+		default:
+			if len(pay) < 3 {
+				pay = append(pay, ref.OtherSection(0xc0, r.Bytes(r.Intn(60)))...)
+			}
+		}
+		chunks := ref.RandChunks(r, 1+len(pay)/60)
+		if r.Chance(3) {
+			chunks = append([]int{1 + r.Intn(40)}, chunks...) // a unit start that carries only a few bytes
+		}
+		up, _ := ref.Packetise(pmtPid, cc, pay, chunks, r.Bool())
+		cc += len(up)
+		if len(up) > 1 && r.Chance(3) {
+			up = up[:1+r.Intn(len(up)-1)] // the rest of the unit is lost
+		}
+		pkts = append(pkts, up...)
+	}
+	var out []ref.Pkt
+	for i := 0; i < len(pkts); i++ {
+		k := pkts[i]
+		switch r.Intn(14) {
+		case 0:
+			continue
+		case 1:
+			out = append(out, k)
+		case 2:
+			k[1] ^= 0x40
+		case 3:
+			if i+1 < len(pkts) {
+				out = append(out, pkts[i+1])
+			}
+		}
+		out = append(out, k)
+		if r.Chance(5) {
+			out = append(out, ref.PaddedPacket(0x100+r.Intn(0x1000), r.Intn(16), r.Bool(), r.Bytes(r.Intn(185))))
+		}
+	}
+	var b bytes.Buffer
+	for _, k := range out {
+		b.Write(k[:])
+	}
+	return streamSeed{b.Bytes(), pmtPid}
+}
+
 // ------------------------------------------------------------------ mutators
 
 var special = []byte{0x00, 0x01, 0x7f, 0x80, 0xfe, 0xff}
@@ -1011,6 +1078,12 @@ func run(c *mon.Ctx) {
 			}
 		}
 		driveDescriptor(byte(tag), nil)
+		// bodies around and beyond the 255 bytes a PMT can carry (the constructor is exported and takes any slice)
+		for _, n := range []int{13 + r.Intn(30), 100 + r.Intn(100), 253, 254, 255, 256, 257, 300 + r.Intn(300), 1000 + r.Intn(3000), 65536 + r.Intn(100)} {
+			driveDescriptor(byte(tag), r.Bytes(n))
+			fill := r.PickByte([]byte{0x00, 0x02, 0x7f, 0x80, 0xff})
+			driveDescriptor(byte(tag), bytes.Repeat([]byte{fill}, n))
+		}
 	})
 	// ---- streams
 	c.Stream("streams", c.N(1500, 400000), func(i int, r *gen.Rand) {
@@ -1030,6 +1103,20 @@ func run(c *mon.Ctx) {
 			for k := r.Intn(4); k > 0; k-- {
 				b, _ = mutate(r, b, nil)
 			}
+		}
+		if len(b) > 65536 {
+			b = b[:65536]
+		}
+		driveStream(b, s.pmtPid)
+	})
+	// ---- sequences of payload units with lost, repeated and reordered packets
+	c.Stream("unit-sequences", c.N(4000, 1500000), func(i int, r *gen.Rand) {
+		s := seedUnits(r)
+		curMut = "unit-sequence"
+		b := s.data
+		if r.Chance(6) {
+			b, curMut = mutate(r, b, nil)
+			curMut = "unit-sequence+" + curMut
 		}
 		if len(b) > 65536 {
 			b = b[:65536]
